@@ -55,3 +55,10 @@ PROP = {
         "instances_independent: in the model a parse is a function of (cfg, strict, input); the code side is the source scan (no package-level variable of package sml other than never-written error values / literal tables), the reused-vs-fresh parser comparison in the child, and the -race concurrency pass",
     ],
 }
+
+
+MANIFEST = {
+    "text": 'Coq theorems (no axioms) over an instrumented executable model of sml/parser.go + errors.go (panic sites, alloc/depth/cost meters, switches for the three repairs), for every input, both modes, every entry point and every total function standing for strconv.ParseFloat: termination (fuel 2*len+2 suffices); no panic with the repaired closing-quote bound (the pre-fix panic is kept as a refuted witness); every returned message is a valid data message; every syntax error has 0 <= offset <= len, line = 1 + newlines before the offset, col = 1 + offset - start of line; at most 40*len+40 scanning primitives and 160*(len+1)^2 steps; with the hint cap each allocation <= 16*len bytes; with the depth cap recursion <= cap+1. The three defects of the pinned code (unbounded size-hint allocation, unbounded nesting, truncated-quote panic) were refuted by vm_compute witnesses, reproduced through the harness in resource-limited child processes, and repaired in the code (fix commits 6aafc8b, 95562b6, 0a72876); the driver accepts a run only if ONE assignment of the repair switches explains every observation. Instance independence: model theorem by construction + source scan for package-level mutable state + reused-vs-fresh parser comparison + a -race pass.',
+    "note": "Theorems are about the model; the tie is a differential in both modes over all entry points (accept/reject, messages, item trees, Offset/Line/Col, crash classes, measured TotalAlloc against the model's meter) run in child processes under ulimit with a wall-clock limit. ParseFloat is a parameter (its real results are passed in the case line). The total-allocation bound is quadratic (each allocation linear): the linear sum bound of the design does not hold even for the capped hint. ParseInt/ParseUint come from Base/Decimal.v and are tied by the differential.",
+    "technique": 'Rocq/Coq proof (invariants over a fuelled, instrumented Gallina model with panic sites and resource meters) + extraction-based differential in resource-limited child processes + vm_compute witnesses',
+}
